@@ -742,15 +742,18 @@ func unescaperFacts(c *engine.Ctx) {
 					fail(name, last.Pos, "the fast path writes into the builder")
 				}
 			case hasBS:
-				found := false
+				found, foundIdx := false, ""
 				for i := range p.Events {
-					if l := p.Events[i]; l.Kind == engine.EvCond && strings.HasPrefix(l.Lit.String(), "$find == $s[?i") {
+					// the index is the loop variable; with the index declared in the for clause the first iteration
+					// reads it as the constant it was initialised with
+					if l := p.Events[i]; l.Kind == engine.EvCond && strings.HasPrefix(l.Lit.String(), "$find == $s[") {
 						found = true
+						foundIdx = strings.TrimSuffix(strings.TrimPrefix(l.Lit.String(), "$find == $s["), "]")
 					}
 				}
 				switch {
 				case found:
-					if !strings.HasSuffix(r0, "strings.Builder.String()") || !strings.HasPrefix(r1, "?i") || len(writes) != 0 {
+					if !strings.HasSuffix(r0, "strings.Builder.String()") || !(strings.HasPrefix(r1, "?i") || r1 == foundIdx) || len(writes) != 0 {
 						fail(name, last.Pos, "at an unescaped separator the function must return (text so far, i) without writing: returns ("+r0+", "+r1+") after "+fmt.Sprint(len(writes))+" writes")
 					}
 				default:
@@ -759,7 +762,7 @@ func unescaperFacts(c *engine.Ctx) {
 					}
 					iterated := false
 					for i := range p.Events {
-						if l := p.Events[i]; l.Kind == engine.EvCond && strings.HasPrefix(l.Lit.String(), "$find != $s[?i") {
+						if l := p.Events[i]; l.Kind == engine.EvCond && strings.HasPrefix(l.Lit.String(), "$find != $s[") {
 							iterated = true
 						}
 					}
